@@ -1230,6 +1230,7 @@ static void union_initializer(Token **rest, Token *tok, Initializer *init) {
     Member *mem = struct_designator(&tok, tok->next, init->ty);
     init->mem = mem;
     designation(&tok, tok, init->children[mem->idx]);
+    consume(&tok, tok, ",");
     *rest = skip(tok, "}");
     return;
   }
@@ -1312,6 +1313,7 @@ static void initializer2(Token **rest, Token *tok, Initializer *init) {
     // An initializer for a scalar variable can be surrounded by
     // braces. E.g. `int x = {3};`. Handle that case.
     initializer2(&tok, tok->next, init);
+    consume(&tok, tok, ",");
     *rest = skip(tok, "}");
     return;
   }
